@@ -18,6 +18,8 @@ theorem Gmx2.deposit_ok {cx : NumCtx} {cfg : Config Rat} {ps : Pool Rat} {lk sk 
       s'.actions = s.actions ++ [(true, r)] ∧
       ∃ w1, Wallet.debit cx s.wallet lk r.longAmount false = .ok w1 ∧ Wallet.debit cx w1 sk r.shortAmount false = .ok s'.wallet := by
   unfold deposit at h
+  rw [show (!((ratOps pw).isFinite la && (ratOps pw).isFinite sa)) = false from rfl] at h
+  simp only [Bool.false_eq_true, if_false] at h
   split at h
   · cases h
   · rename_i hneg
@@ -25,7 +27,6 @@ theorem Gmx2.deposit_ok {cx : NumCtx} {cfg : Config Rat} {ps : Pool Rat} {lk sk 
     split at h
     · cases h
     · rename_i r' tag' hm
-      simp only [] at h
       split at h
       · cases h
       · cases h
@@ -45,6 +46,8 @@ theorem Gmx2.withdraw_ok {cx : NumCtx} {cfg : Config Rat} {ps : Pool Rat} {lk sk
       s'.wallet = Wallet.credit cx (Wallet.credit cx s.wallet lk r.longAmount) sk r.shortAmount := by
   unfold withdraw at h
   simp only [] at h
+  rw [show (!(ratOps pw).isFinite (amt.getD s.amount)) = false from rfl] at h
+  simp only [Bool.false_eq_true, if_false] at h
   split at h
   · cases h
   · rename_i h1
@@ -247,6 +250,8 @@ theorem C17_v2_no_over_redeem (cx : NumCtx) (cfg : Config Rat) (ps : Pool Rat) (
     (hg : s.amount < g) : withdraw (ratOps pw) cx cfg ps lk sk s (some g) = (.error .demeter, s) := by
   unfold withdraw
   simp only [Option.getD_some]
+  rw [show (!(ratOps pw).isFinite g) = false from rfl]
+  simp only [Bool.false_eq_true, if_false]
   by_cases hn : g < 0
   · rw [if_pos hn]
   · rw [if_neg hn, if_pos hg]
